@@ -3,7 +3,7 @@
    orders (order insensitivity of the generated programs is thereby checked, not assumed), and its terminal
    output is compared by TLC with what the real read-compile-run pipeline printed."""
 import random
-import vlib, coregen as cg, corecommon as cc
+import vlib, coregen as cg, corecommon as cc, qqgen
 from vlib import Broken
 
 
@@ -31,6 +31,15 @@ def run():
                 pid += 1
                 progs.append((pid, cg.wrap_toplevel(node)))
                 kinds[pid] = "lazy:%s" % name
+        for rep in range(60 if chk.thorough else 4):
+            for name, node in cg.forms_cases(rng):
+                pid += 1
+                progs.append((pid, cg.wrap_toplevel(node)))
+                kinds[pid] = "form:%s" % name
+        for name, node in qqgen.qq_cases(rng, 400 if chk.thorough else 14):
+            pid += 1
+            progs.append((pid, cg.wrap_toplevel(node)))
+            kinds[pid] = "quasiquote:%s" % name
         results = cc.run_all(build, sc, progs, "c03")
         ok1, bad1, rs1 = cc.validate(sc, progs, results, "l2r", cfg="CoreRun.cfg")
         ok2, bad2, rs2 = cc.validate(sc, progs, results, "r2l", cfg="CoreRunR2L.cfg")
@@ -52,7 +61,7 @@ def run():
         chk.cov["traces_validated_against_impl"] = len(good)
         chk.cov["evaluations"] = len(progs)
         chk.cov["distinct_nontrivial"] = len({n.scm for _, n in progs})
-        chk.cov["rule"] = "84 systematic capture patterns (pattern x position x depth 1-4) + seeded random closed programs; distinct program texts"
+        chk.cov["rule"] = "84 systematic capture patterns (pattern x position x depth 1-4) + seeded random closed programs + lazy family + 16 further derived-form shapes (cond/case =>, let-values family, define-values, case-lambda, multi-variable do, letrec, apply with leading arguments ...) + nested quasiquote templates (levels 0-2, unquote / unquote-splicing at every level, dotted tails); distinct program texts"
         chk.cov["exhaustive"] = False
         chk.sample({"scheme": progs[5][1].scm[:400], "implementation_output": results.get(progs[5][0])})
         chk.sample({"scheme": progs[90][1].scm[:700]})
